@@ -1176,6 +1176,14 @@ impl Sim {
                 });
             }
             Step::ServerFrame { tick } => self.server_frame(tick),
+            Step::LongFrame { secs } => {
+                use bevy::time::TimeUpdateStrategy;
+                let secs = secs.clamp(1, 15) as u64;
+                self.server.insert_resource(TimeUpdateStrategy::ManualDuration(std::time::Duration::from_secs(secs)));
+                self.server_frame(false);
+                self.server.insert_resource(TimeUpdateStrategy::ManualDuration(std::time::Duration::from_millis(10)));
+                self.flags.insert("long_server_frame");
+            }
             Step::IdleFrames { n } => {
                 for _ in 0..n.min(12) {
                     self.server_frame(false);
